@@ -100,6 +100,9 @@ def _cut(mid, how):
         divs = mid.divisions if mid.known_divisions else None
         return dx.from_delayed(mid.to_delayed(optimize_graph=(how != "delayed_nog")), meta=mid._meta, divisions=divs,
                                verify_meta=(how != "delayed_nv"))
+    if how == "delayed_prefix":
+        # a user-chosen name prefix, divisions not passed along (unknown): the name must still tell selections apart
+        return dx.from_delayed(mid.to_delayed(), meta=mid._meta, prefix="recut")
     if how == "legacy":
         return dx.from_legacy_dataframe(mid.to_legacy_dataframe())
     raise ValueError(how)
@@ -109,6 +112,11 @@ _CUT_OPS = [
     programs.Op("parts_rev", lambda d: d.partitions[::-1] if programs._dd(d) else d, family="partitions", unordered=True),
     programs.Op("parts_tail", lambda d: d.partitions[1:] if programs._dd(d) else d.iloc[3:], family="partitions"),
     programs.Op("parts_20", lambda d: d.partitions[[2, 0]] if programs._dd(d) else d.iloc[[6, 7, 0, 1, 2]], family="partitions", unordered=True),
+    # two different selections of equal length combined in one query
+    programs.Op("parts_first_last", lambda d: programs._concat([d.partitions[0], d.partitions[d.npartitions - 1]]) if programs._dd(d) else d,
+                family="partitions", unordered=True),
+    programs.Op("parts_last_minus_first", lambda d: (d.partitions[d.npartitions - 1].sum() - d.partitions[0].sum()) if programs._dd(d) else d.sum(),
+                family="partitions"),
     programs.Op("tail2c", lambda d: d.tail(2, compute=False) if programs._dd(d) else d.tail(2), family="head"),
 ]
 
@@ -124,7 +132,7 @@ def _chains(ctx):
              "repart2", "dropna_c", "mappart", "reset_index", "fillna0", "head3", "dropdup_b", "shift1", "prefix",
              "parts_rev", "parts_tail", "parts_20"]
     tails = ["proj_ab", "filt_a", "assign_a", "add1", "fillna0", "repart5", "cumsum", "sort_a_desc", "abs", "dropna",
-             "parts_tail", "parts_20", "tail2c"]
+             "parts_tail", "parts_20", "tail2c", "parts_first_last", "parts_last_minus_first"]
     tnames = ["id", "sum", "count", "len", "col0", "gb_sum", "self_add", "index", "shared_sum"]
     cases = []
     for h in heads:
@@ -228,7 +236,7 @@ def _cases(ctx):
     for (h, t, tn) in chains:
         if not _legal(h, t, tn, ops, terms):
             continue
-        for how in ("persist", "delayed", "delayed_nv", "delayed_nog", "legacy"):
+        for how in ("persist", "delayed", "delayed_nv", "delayed_nog", "delayed_prefix", "legacy"):
             for cut in (1, 2):
                 cases.append({"head": h, "tail": t, "term": tn, "how": how, "cut": cut, "layout": 0})
     ctx.rng.shuffle(cases)
@@ -237,6 +245,9 @@ def _cases(ctx):
     # a partition selection above an overlap operation, cut between the two (D82)
     must += [c for c in cases if c["head"] in ("shift1", "cumsum") and c["tail"] in ("parts_tail", "parts_20") and c["cut"] == 1
              and c["how"] in ("persist", "delayed") and c["term"] == "id"]
+    # two equal-length selections of one re-imported collection (names of partition-filtered imports)
+    must += [c for c in cases if c["tail"] in ("parts_first_last", "parts_last_minus_first") and c["cut"] == 1 and c["term"] == "id"
+             and c["head"] in ("add1", "filt_a") and c["how"] in ("delayed_prefix", "delayed", "persist", "legacy")]
     must = must + [dict(c, layout=3) for c in must if c["how"] == "persist"]
     if ctx.quick:
         cases = must + cases[:220]
